@@ -1,17 +1,17 @@
 #!/bin/bash
-# usage: confirm_mutant.sh <Cxx> <name>  -- worktree /tmp/wt-<Cxx>[suffix] with _seeded/{patch.diff,demo.sh}
+# usage: confirm_mutant.sh <Cxx> <name>  -- worktree /tmp/wt-<Cxx>[suffix] with $SD/{patch.diff,demo.sh}
 # Confirms in the scratch worktree: patch applies to pinned HEAD, builds, the stable baseline tests pass with it,
 # demo fails with it and passes without it.  Writes /tmp/confirm-<name>.json
 set -u
-WT=$1; NAME=$2
+WT=$1; NAME=$2; SD=${3:-_seeded}
 cd $WT || exit 2
-cp -r _seeded /tmp/_seeded_$NAME
+cp -r $SD /tmp/_seeded_$NAME
 git checkout -q -- . 2>/dev/null
-git apply _seeded/patch.diff || { echo "patch does not apply"; exit 2; }
+git apply $SD/patch.diff || { echo "patch does not apply"; exit 2; }
 BUILD=ok
 cargo build --offline --workspace -j 8 >/tmp/confirm-$NAME.build.log 2>&1 || BUILD=fail
 DEMO_WITH=0
-bash _seeded/demo.sh >/tmp/confirm-$NAME.demo_with.log 2>&1; DEMO_WITH=$?
+bash $SD/demo.sh >/tmp/confirm-$NAME.demo_with.log 2>&1; DEMO_WITH=$?
 # test suite with the change
 rm -f target/nextest/pb/junit.xml
 cargo nextest run --workspace --no-fail-fast --tool-config-file pb:/w/lib/nextest.toml --profile pb --test-threads 6 --offline >/tmp/confirm-$NAME.test.log 2>&1
@@ -32,7 +32,7 @@ print("stable tests failing with the change:", len(failed), failed[:10])
 PY
 git checkout -q -- .
 cargo build --offline --workspace -j 8 >/dev/null 2>&1
-bash _seeded/demo.sh >/tmp/confirm-$NAME.demo_without.log 2>&1; DEMO_WITHOUT=$?
-git apply _seeded/patch.diff
+bash $SD/demo.sh >/tmp/confirm-$NAME.demo_without.log 2>&1; DEMO_WITHOUT=$?
+git apply $SD/patch.diff
 echo "{\"build\":\"$BUILD\",\"demo_with_change_exit\":$DEMO_WITH,\"demo_without_change_exit\":$DEMO_WITHOUT}" > /tmp/confirm-$NAME.json
 cat /tmp/confirm-$NAME.json
